@@ -20,8 +20,15 @@ class Result:
 
 
 def parse_model(txt):
-    """parse (get-model) output: define-fun lines"""
+    """parse (get-value ...) output: ((name value) ...) pairs; also accepts define-fun lines of (get-model)"""
     model = {}
+    for m in re.finditer(r'\(\s*(\|[^|]*\||[^\s()]+)\s+(#x[0-9a-fA-F]+|#b[01]+|true|false|\(_ bv\d+ \d+\))\s*\)', txt):
+        n = m.group(1).strip('|'); v = m.group(2)
+        if v == 'true': model[n] = True
+        elif v == 'false': model[n] = False
+        elif v.startswith('#x'): model[n] = int(v[2:], 16)
+        elif v.startswith('#b'): model[n] = int(v[2:], 2)
+        else: model[n] = int(v.split()[1][2:])
     for m in re.finditer(r'\(define-fun\s+(\|[^|]*\||[^\s()]+)\s+\(\)\s+(?:Bool|\(_ BitVec \d+\))\s+([^\s()]+|\(_ bv\d+ \d+\))\s*\)', txt):
         n = m.group(1).strip('|'); v = m.group(2)
         if v == 'true': model[n] = True
@@ -98,7 +105,10 @@ def build_query(assumptions, goal, extra_defs=None):
         lines.append('(assert %s)' % em.ref(a, 0))
     lines.append('(assert %s)' % em.ref(goal, 0))
     lines.append('(check-sat)')
-    lines.append('(get-model)')
+    from .term import VAR_DEFS
+    names = [em.vname(v) for n, v in sorted(em.vars.items()) if n not in VAR_DEFS]
+    for i in range(0, len(names), 200):
+        lines.append('(get-value (%s))' % ' '.join(names[i:i + 200]))
     return '\n'.join(lines) + '\n', em
 
 
